@@ -90,6 +90,8 @@ var props = []prop{
 }
 
 const frameLimit = 200
+const fieldsPerFlush = 50
+const maxArrayIndex = 67108864
 
 func dOp(w uint32) int  { return int(w / (1 << 26)) }
 func dA(w uint32) int   { return int(w/(1<<18)) % 256 }
@@ -286,7 +288,7 @@ func (c *wfctx) instOK(pc int, w uint32) bool {
 	case opSETLIST:
 		ok = c.reg(A+B) && fall
 		if ok && C == 0 {
-			ok = c.tagIs(pc+1, 3) && f.code[pc+1] >= 1
+			ok = c.tagIs(pc+1, 3) && f.code[pc+1] >= 1 && int64(f.code[pc+1])*fieldsPerFlush <= maxArrayIndex
 		}
 	case opCLOSE, opNOP:
 		ok = fall
